@@ -61,6 +61,7 @@ func run(c *lib.Ctx) {
 		"non-trivial = the monitor checked >=1 reply AND >=1 call was outstanding when a Close returned; fingerprint = case x (delivery order, close outcomes) hash")
 	c.Assume("close clause restated as bounded: a call outstanding when Close returns must return within 10 s on an otherwise idle child (goroutine dump attached when it does not)",
 		"Close() of a client that never subscribed is a documented no-op (client.Close returns early) and is not counted as a close",
+		"every topic is subscribed before traffic starts (a topic first touched while queue.Close runs is never closed by it; without a subscriber its Wait has nobody to answer anyway)",
 		"each client is closed by one goroutine only and its subscriber keeps draining Recv() until it is closed (the usage pattern of every chain33 module)",
 		"race reports decide only when both accesses are in <repo>/queue/")
 	nCases := c.N(30, 400)
